@@ -73,9 +73,11 @@ func (r *vRegistry) GetByKind(kind string) (step.Provider, error) {
 }
 
 type vProvider struct {
-	run  *vRun
-	base step.Lifecycle[step.LifecycleStage]
-	life step.Lifecycle[step.LifecycleStageWithSchema]
+	run      *vRun
+	holder   *vRunHolder
+	base     step.Lifecycle[step.LifecycleStage]
+	life     step.Lifecycle[step.LifecycleStageWithSchema]
+	outcomes map[string]map[string]int // per step id: scripted outcomes of the abstract step
 }
 
 func (p *vProvider) Kind() string                                 { return "plugin" }
@@ -85,7 +87,23 @@ func (p *vProvider) ProviderSchema() map[string]*schema.PropertySchema {
 }
 func (p *vProvider) RunProperties() map[string]struct{} { return map[string]struct{}{"step": {}} }
 func (p *vProvider) LoadSchema(inputs map[string]any, ctx map[string][]byte) (step.RunnableStep, error) {
-	return &vRunnable{run: p.run, id: "?", life: p.life}, nil
+	id := verifStepIDOf(inputs)
+	return &vRunnable{holder: p.holder, run: p.run, id: id, life: p.life, outcome: p.outcomes[id]}, nil
+}
+
+// verifStepIDOf: the templates carry the step id in the provider property (plugin: {src: <id>}).
+func verifStepIDOf(inputs map[string]any) string {
+	switch m := inputs["plugin"].(type) {
+	case map[any]any:
+		if s, ok := m["src"].(string); ok {
+			return s
+		}
+	case map[string]any:
+		if s, ok := m["src"].(string); ok {
+			return s
+		}
+	}
+	return "?"
 }
 
 func verifExecutor(run *vRun) *executor {
@@ -103,7 +121,7 @@ func verifExecutor(run *vRun) *executor {
 func verifWorkflow(t tWorkflow) *Workflow {
 	wf := &Workflow{Input: map[any]any{}, Steps: map[string]any{}, Outputs: map[string]any{}}
 	for _, ts := range t.steps {
-		data := map[any]any{"plugin": map[any]any{"src": "image", "deployment_type": "builtin"}}
+		data := map[any]any{"plugin": map[any]any{"src": ts.id, "deployment_type": "builtin"}}
 		for k, v := range ts.fields {
 			data[k] = v
 		}
